@@ -8,7 +8,16 @@ VARIABLES shard, t
 Init == shard \in 0 .. 63 /\ t = 0
 Next == t = 0 /\ t' \in {i \in DOMAIN Recs : i % 64 = shard} /\ shard' = shard
 R == Recs[t]
+(* records with kind = "frame": [t, kind, h, w, cyc, active (segment numbers, 1-based, Lattice order)] -> the crossable
+   loop / path verdict of C10 and the two returned point sets (as point-number lists) *)
+RECURSIVE SortedInts(_)
+SortedInts(S) == IF S = {} THEN <<>> ELSE LET m == CHOOSE x \in S : \A y \in S : x <= y IN <<m>> \o SortedInts(S \ {m})
+IsFrame == "kind" \in DOMAIN R /\ R.kind = "frame"
 Report == t = 0 \/
-    LET g == TLCEval(GridGraph(R.h, R.w))  S == {R.active[i] : i \in DOMAIN R.active} IN
-    PrintT(ToJson([t |-> R.t, notadj |-> NotAdj(g, S), notseg |-> NotSeg(g, S), connected |-> Connected(g, S)]))
+    IF IsFrame
+    THEN LET g == TLCEval(Lattice(R.h, R.w))  A == {R.active[i] : i \in DOMAIN R.active} IN
+         PrintT(ToJson([t |-> R.t, ok |-> Crossable(g, A, R.cyc),
+                        passed |-> SortedInts(Touched(g, A)), cross |-> SortedInts({v \in V(g) : Deg(g, A, v) = 4})]))
+    ELSE LET g == TLCEval(GridGraph(R.h, R.w))  S == {R.active[i] : i \in DOMAIN R.active} IN
+         PrintT(ToJson([t |-> R.t, notadj |-> NotAdj(g, S), notseg |-> NotSeg(g, S), connected |-> Connected(g, S)]))
 =============================================================================
